@@ -251,3 +251,36 @@ PROPS["C15"] = {
              "Non-trivial = >= 3 live blocks at some point and a grow after a shrink or a backend failure during growth; distinct by sequence"),
     "assumptions": [],
 }
+
+PROPS["C12"] = {
+    "level": "exploration",
+    "technique": "stateful property-based testing (rapidcheck): scribble-and-free metamorphic check on owned URIs plus bit-for-bit bracketing of every read-only argument, under ASan",
+    "level_text": ("Histories (parse / resolve / create reference / normalise / make owner / observers) end in make-owner or normalisation with a non-zero mask on an object that may borrow from several "
+                   "source texts and from library constants. The object must be flagged owner, keep text and components across make-owner, and after every source text has been overwritten with 0xFF "
+                   "and freed and every other object released it must still recompose to the same text with the same components and release cleanly (ASan reports any access to the freed sources). "
+                   "Every call in the history is bracketed: const URI arguments (operands of resolve, create-reference, equals, toString, charsRequired, both mask queries) must be bit-for-bit "
+                   "unchanged and every caller-supplied text byte-for-byte unchanged."),
+    "level_note": "Trusted: ASan (use-after-free detection), freeze() (struct bytes, path nodes, IP data and referenced text). Read-only page protection of inputs is exercised in C03/C16, here byte comparison is used.",
+    "quick": {"cases": 25000},
+    "thorough": {"cases": 600000, "ceiling_s": 3000},
+    "rule": ("histories of 2 correlated parses + 1..7 steps incl. observers, then a final make-owner (50%) or normalise with mask 1..63 on an object nobody else borrows from; all host kinds; both "
+             "character types. Non-trivial = the final object was not yet owner and has >= 3 non-empty components including a host, or borrows from >= 2 source texts; distinct by history"),
+    "assumptions": ["a caller does not change an object in place while other live objects borrow from it (histories are generated legal)"],
+}
+
+PROPS["C13"] = {
+    "level": "exploration",
+    "technique": "stateful property-based testing (rapidcheck) with recording memory managers and objcopy-redirected libc allocator references; exhaustive enumeration of the 31 incomplete managers x 9 entry points",
+    "level_text": ("Histories over every function that takes a manager bind each object to recording manager A, B, a manager completed from a malloc/free-only backend, or NULL. The library objects' own "
+                   "references to malloc/calloc/realloc/reallocarray/free are renamed at build time, so any call the library makes to the C allocator is counted: it must be zero under a custom manager, "
+                   "and custom managers must see nothing under NULL. Every free must name an outstanding block of the same manager with the exact pointer; after the matching release calls every manager "
+                   "(and the libc ledger) is back to zero; repeated uriFreeUriMembersMm is harmless. All 31 incomplete managers are rejected by all nine ...Mm entry points with the dedicated code "
+                   "before any request reaches them and without touching the URI."),
+    "level_note": "Trusted: the recording managers, the symbol redirection (verified by the NULL-manager ledger moving), ASan/LSan.",
+    "enumerate": {"incomplete_managers": "all 31 proper subsets of {malloc, calloc, realloc, reallocarray, free} x 9 ...Mm entry points x 2 character types, plus uriCompleteMemoryManager on each"},
+    "quick": {"cases": 25000},
+    "thorough": {"cases": 600000, "ceiling_s": 3000},
+    "rule": ("histories of 2 parses + 1..8 steps + 0..2 dissect/compose/free-list steps, manager chosen per step among {NULL, A, B, completed}; both character types. Non-trivial = >= 3 manager-taking "
+             "calls on >= 2 objects; distinct by history (incomplete-manager combinations counted separately)"),
+    "assumptions": ["an object is always released with the manager that built it"],
+}
